@@ -571,7 +571,9 @@ COMMON_ASSUMPTIONS = [
     "CPU time is not simulated: virtual time advances only when every goroutine is blocked",
 ]
 ASSUMPTIONS = {}
-RULES = {}
+RULES = {
+    "C18": "one simulated run draws a history of starts and enumerates, from one snapshot, every fault case of the next start: (disk step or read, fault kind crash/EIO/ENOSPC/EACCES, torn-write class), each followed by further starts and a recovery start; one evaluation = one such fault case (the ticket-store part counts its crash points the same way); distinct non-trivial = distinct (history, interrupted start, step, fault, torn class) identifiers",
+}
 SIM_COMMON = ["TCP (simnet: chunking, latency, stalls, cuts, resets, write errors, tampering filters)", "clock and timers (testing/synctest bubble)",
               "kernel entropy (simrand, one stream per node keyed by goroutine id)", "goroutine scheduling at connection operations and harness steps (seeded tape)"]
 COMPONENTS = {
